@@ -89,6 +89,7 @@ struct DiskEngine : Engine {
         for (int i = 0; i < nread; ++i) {
             KV k; k.set("how", (int64_t)cfg.below(3)).set("open", cfg.chance(0.5) ? "fp" : "name").set("raw", cfg.chance(0.4) ? 1 : 0).set("filter", cfg.chance(0.45) ? (int64_t)cfg.below(NFILTERS) : 0)
              .set("fvia", (int64_t)cfg.below(3)).set("maxpk", cfg.chance(0.2) ? (int64_t)cfg.range(1, 10) : 0).set("stopat", cfg.chance(0.15) ? (int64_t)cfg.range(1, 10) : 0).set("stopvia", (int64_t)root.fork("stopvia").below(2)).set("method", (int64_t)root.fork("method").below(4)).set("snaplen", (int64_t)root.fork("snaplen").below(5)).set("throwat", cfg.chance(0.2) ? (int64_t)cfg.range(1, 8) : 0).set("throwkind", (int64_t)cfg.below(2)).set("cont", cfg.chance(0.5) ? 1 : 0);
+            { Rng cf = root.fork(fmt("clrat%d", i).c_str()); k.set("clrat", cf.chance(0.25) ? (int64_t)cf.range(1, 6) : 0); }   // the application clears the filter (set_filter("")) after that many frames (next_packet passes with a filter)
             { Rng tg = root.fork(fmt("togat%d", i).c_str()); k.set("togat", tg.chance(0.2) ? (int64_t)tg.range(1, 6) : 0); }   // the application switches set_extract_raw_pdus() over after that many frames (next_packet passes)
             p.steps.push_back("read " + k.line());
         }
@@ -197,12 +198,13 @@ struct DiskEngine : Engine {
             if (!filt.empty()) { char eb[PCAP_ERRBUF_SIZE]; int sm = file.short_max; int64_t re = file.reio_at; file.short_max = 0; file.reio_at = -1; FILE* fp2 = simdisk::open(path, "rb", &view); dead = fp2 ? pcap_fopen_offline(fp2, eb) : 0; file.short_max = sm; file.reio_at = re;
                                  if (dead && pcap_compile(dead, &prog, filt.c_str(), 1, PCAP_NETMASK_UNKNOWN) == 0) have_prog = true; simdisk::fired.clear(); }
             bool filter_usable = filt.empty() || have_prog;
+            const size_t clrat = (how == 0 && have_prog && first_damage >= 24) ? (size_t)k.num("clrat", 0) : 0; bool filt_on = have_prog;
             std::vector<Got> expect; size_t skipped_unparsed = 0, skipped_filter = 0; bool mode_raw = raw;
             if (header_ok) for (auto& r : recs) {
-                if (have_prog) { pcap_pkthdr h; memset(&h, 0, sizeof h); h.caplen = r.caplen; h.len = r.len; static const uint8_t z = 0; if (!pcap_offline_filter(&prog, &h, r.data.empty() ? &z : r.data.data())) { ++skipped_filter; continue; } }
+                if (filt_on) { pcap_pkthdr h; memset(&h, 0, sizeof h); h.caplen = r.caplen; h.len = r.len; static const uint8_t z = 0; if (!pcap_offline_filter(&prog, &h, r.data.empty() ? &z : r.data.data())) { ++skipped_filter; continue; } }
                 Got g; g.sec = r.sec; g.usec = r.usec; g.bytes = r.data; g.type = -1; g.size = 0; g.israw = mode_raw;
                 if (!mode_raw) { std::unique_ptr<PDU> pdu; try { pdu.reset(construct(dlt, r.data)); } catch (malformed_packet&) {} if (!pdu) { ++skipped_unparsed; continue; } g.type = (int)pdu->pdu_type(); g.size = pdu->size(); }
-                expect.push_back(g); if (togat && expect.size() == togat) mode_raw = !mode_raw;
+                expect.push_back(g); if (togat && expect.size() == togat) mode_raw = !mode_raw; if (clrat && expect.size() == clrat) filt_on = false;
             }
             if (skipped_unparsed) st.inc("probe.malformed_frame_skipped", skipped_unparsed); if (skipped_filter) st.inc("probe.frame_filtered_out", skipped_filter);
             // ---- SUT
@@ -222,6 +224,7 @@ struct DiskEngine : Engine {
                 if (header_ok && first_damage >= 24) { st.inc("chk.link_type"); if (sn->link_type() != dlt) return Verdict::bad("disk:link-type", fmt("link_type()=%d for a file written with link type %d", sn->link_type(), dlt)); }
                 auto take = [&](PDU& pdu, const Timestamp& ts) { Got g; g.israw = cur_raw; g.sec = (uint32_t)ts.seconds(); g.usec = (uint32_t)ts.microseconds(); g.type = (int)pdu.pdu_type(); g.size = pdu.size(); if (cur_raw) { RawPDU* r = pdu.find_pdu<RawPDU>(); if (r) g.bytes.assign(r->payload().begin(), r->payload().end()); } got.push_back(g); };
                 if (how == 0) { for (;;) { Packet pk(sn->next_packet()); if (!pk.pdu()) break; take(*pk.pdu(), pk.timestamp()); if (got.size() > recs.size() + 5) break;
+                        if (clrat && got.size() == clrat) { st.inc("fault.filter_cleared_in_mid_capture"); if (!sn->set_filter("")) return Verdict::bad("disk:set-filter-failed", "set_filter(\"\") rejected on an open capture"); }
                         if (togat && got.size() == togat) { cur_raw = !cur_raw; sn->set_extract_raw_pdus(cur_raw); st.inc("fault.extract_mode_switched_in_mid_capture"); } } }
                 else if (how == 1) {
                     // stopping from inside the handler either by returning false or through stop_sniff() (pcap_breakloop): the loop ends after this
